@@ -36,7 +36,8 @@ CLAIM = dict(
           "HOME and file system, a path process_includes goes on to open lies under the include root), "
           "C12_include_root_sound (the root is a carts folder the cart lies in, or the cart's own directory), "
           "C12_include_rejects_outside (a string denoting a place outside the root is rejected with "
-          "P8IncludeOutsideOfAllowedDirectory), C12_include_ok_spec; C12_require_contained (every candidate handed to "
+          "P8IncludeOutsideOfAllowedDirectory), C12_include_ok_spec, C12_include_model_holds (for carts outside the "
+          "carts folders the model's accesses satisfy the monitor's predicate with the Spec-computed root); C12_require_contained (every candidate handed to "
           "os.path.isfile / open lies under the directory its load-path pattern names, for every string the filter "
           "lets through and every load path made of patterns DIR/NAME?SUFFIX), C12_require_contained_any_path, "
           "C12_require_default_path (default path: under the requiring file's directory), C12_require_filter_spec, "
@@ -418,7 +419,8 @@ def model_requests(case, obs):
     if case['kind'] == 'include':
         files = fsobs.hxlist(_SB['files'] or [])
         return ['root %s %s %s' % (h(obs['cwd']), h(obs['home']), h(obs['cart_arg'])),
-                'inc %s %s %s %s %s' % (h(obs['cwd']), h(obs['home']), h(obs['cart_arg']), h(obs['inc']), files)]
+                'inc %s %s %s %s %s' % (h(obs['cwd']), h(obs['home']), h(obs['cart_arg']), h(obs['inc']), files),
+                'incacc %s %s %s %s %s' % (h(obs['cwd']), h(obs['home']), h(obs['cart_arg']), h(obs['inc']), files)]
     if case['kind'] == 'require':
         return ['filter ' + h(obs['req']),
                 'eff %s %s' % (h(obs['lp_arg']) if obs['lp_arg'] is not None else '~',
@@ -465,6 +467,12 @@ def compare(case, obs, answers):
             got = obs['outcome']
         if answers[1] != got:
             return '#include %r from %r: implementation %s, model %s' % (obs['inc'], obs['cart_arg'], got, answers[1])
+        # the accesses themselves: isfile probe, then open, of the resolved path (the cart is named on the command line)
+        evs = [e for e in obs['events'] if not (e[0] == 'o' and e[1] == obs['cart_arg'])]
+        tr = ','.join('%s:%s' % (e[0], fsobs.hx(e[1])) for e in evs) or '~'
+        exp = '%s %s' % (tr, 'false' if obs['outcome'] == 'OK' else 'true')
+        if answers[2] != exp:
+            return '#include %r from %r: implementation accesses %s, model %s' % (obs['inc'], obs['cart_arg'], exp, answers[2])
         return None
     if case['kind'] == 'graph':
         tr, _, outcome = answers[0].partition(' ')
